@@ -340,6 +340,137 @@ theorem mo_update_alignment (s : State α) (nobj : Nat) (sortND : List (MInd α)
 
 end MOAlign
 
+section MOTags
+open MO C14Align
+variable {α : Type} [RealLike α]
+
+/-! ### Alignment by identity, for arbitrary `_ps` tags on the initial population
+
+`mo_alignment` speaks through the tags the chosen individuals carry.  The theorems below close the
+loop through `generate`: because it overwrites the tag of EVERY parent (`retag`), the tags that
+`update` reads are the positions of the parents in the strategy's own list, whatever `_ps` the
+individuals carried when they were handed to `__init__` (a restart from the parents or the last
+offspring of another `StrategyMultiObjective`).  A `generate` that only tags the individuals
+lacking `_ps` falsifies `retag_setTags`, hence `mo_alignment_any_initial_tags`. -/
+
+/-- What one generate/update round selects (any scalar type): members of the offspring list or
+re-tagged parents, provided the non-dominated sort only returns individuals it was given. -/
+theorem update_chosen_mem' (s : State α) (nobj : Nat) (sortND : List (MInd α) → List (List (MInd α)))
+    (indicator : List (MInd α) → List α → Nat) (pop : List (MInd α))
+    (hsort : ∀ l, ∀ f ∈ sortND l, ∀ x ∈ f, x ∈ l) (s' : State α) (nc : List (MInd α))
+    (h : update s nobj sortND indicator pop = some (s', nc)) :
+    ∃ chosen, s' = realign s chosen nc ∧ ∀ c ∈ chosen, c ∈ pop ∨ c ∈ s.parents := by
+  obtain ⟨chosen, hsel, hre, _⟩ := mo_update_alignment s nobj sortND indicator pop s' nc h
+  refine ⟨chosen, hre, fun c hc => ?_⟩
+  unfold select at hsel
+  have := C14Shapes.selectFronts_mem _ _ _ _ _ _ hsel c hc
+  have hcand : c ∈ pop ++ s.parents := by
+    rcases this with h1 | h1
+    · exact h1
+    · obtain ⟨f, hf, hcf⟩ := List.mem_flatten.1 h1
+      exact hsort _ f hf c hcf
+  exact List.mem_append.1 hcand
+
+/-- **Alignment by identity, arbitrary initial tags** (cma.py:412-413 with 497-550).  Let the parents
+of `s` carry ANY tags (`setTags s tags`: stale `("p", j)` / `("o", j)` of an earlier strategy, in or
+out of range).  One generate/update round gives exactly the result it gives without those tags, all
+five per-parent lists have one entry per new parent, and entry `i` is derived from the history of the
+`i`-th surviving individual itself:
+* a new parent that is old parent `k` (the same individual: position `k` of the strategy's own list)
+  keeps position `k`'s `A`, `invCholesky`, `pc`, and its `psucc` / `sigma` are position `k`'s values
+  folded with the success rule over exactly the offspring of `k` (chosen = success, not chosen =
+  failure);
+* a new parent that is an offspring (tag `("o", j)` written by `generate`) carries
+  `offspringTmp s` of it: the values derived from position `j`'s pre-update state
+  (`mo_offspring_values`, `mo_offspring_factors`), which reads no parent tag. -/
+theorem mo_alignment_any_initial_tags (s : State α) (tags : List (Bool × Nat)) (nobj : Nat)
+    (sortND : List (MInd α) → List (List (MInd α))) (indicator : List (MInd α) → List α → Nat)
+    (hsort : ∀ l, ∀ f ∈ sortND l, ∀ x ∈ f, x ∈ l)
+    (pop : List (MInd α)) (hpop : ∀ o ∈ pop, o.off = true)
+    (hl1 : s.psucc.length = s.parents.length) (hl2 : s.sigmas.length = s.parents.length)
+    (s' : State α) (nc : List (MInd α))
+    (h : MO.round (setTags s tags) nobj sortND indicator pop = some (s', nc)) :
+    MO.round s nobj sortND indicator pop = some (s', nc) ∧
+    s'.sigmas.length = s'.parents.length ∧ s'.A.length = s'.parents.length ∧
+    s'.invCh.length = s'.parents.length ∧ s'.pc.length = s'.parents.length ∧
+    s'.psucc.length = s'.parents.length ∧
+    ∀ i (hi : i < s'.parents.length),
+      (s'.parents[i] ∈ pop ∧
+        s'.sigmas[i]? = some (offspringTmp s s'.parents[i]).sigma ∧
+        s'.psucc[i]? = some (offspringTmp s s'.parents[i]).psucc ∧
+        s'.A[i]? = some (offspringTmp s s'.parents[i]).A ∧
+        s'.invCh[i]? = some (offspringTmp s s'.parents[i]).invCh ∧
+        s'.pc[i]? = some (offspringTmp s s'.parents[i]).pc) ∨
+      (∃ k, ∃ hk : k < s.parents.length,
+        s'.parents[i] = { s.parents[k] with off := false, pidx := k } ∧
+        s'.A[i]? = some (s.A.getD k []) ∧ s'.invCh[i]? = some (s.invCh.getD k []) ∧
+        s'.pc[i]? = some (s.pc.getD k []) ∧
+        ∃ ps sg, s'.psucc[i]? = some ps ∧ s'.sigmas[i]? = some sg ∧
+          (ps, sg) = adjFold s.prm k (s'.parents.map (fun c => (c, true)) ++ nc.map (fun c => (c, false)))
+            (s.psucc.getD k 0, s.sigmas.getD k 0)) := by
+  unfold MO.round at h ⊢
+  rw [retag_setTags] at h
+  refine ⟨h, ?_⟩
+  obtain ⟨chosen, hre, hmem⟩ := update_chosen_mem' (retag s) nobj sortND indicator pop hsort s' nc h
+  subst hre
+  have hpar : (realign (retag s) chosen nc).parents = chosen := rfl
+  have hlen : ∀ i (hi : i < chosen.length), _ := fun i hi => mo_alignment (retag s) chosen nc i hi
+  refine ⟨?_, ?_, ?_, ?_, ?_, ?_⟩
+  · rw [hpar]; dsimp only [realign]; exact pick_length _ _ _ _
+  · rw [hpar]; dsimp only [realign]; exact pick_length _ _ _ _
+  · rw [hpar]; dsimp only [realign]; exact pick_length _ _ _ _
+  · rw [hpar]; dsimp only [realign]; exact pick_length _ _ _ _
+  · rw [hpar]; dsimp only [realign]; exact pick_length _ _ _ _
+  intro i hi
+  have hi' : i < chosen.length := hi
+  obtain ⟨_, _, _, _, _, _, hp, ho⟩ := hlen i hi'
+  show ((chosen[i] ∈ pop ∧ _) ∨ _)
+  rcases hmem _ (List.getElem_mem hi') with hin | hin
+  · left
+    obtain ⟨e1, e2, e3, e4, e5⟩ := ho (hpop _ hin)
+    rw [offspringTmp_retag] at e1 e2 e3 e4 e5
+    exact ⟨hin, e1, e2, e3, e4, e5⟩
+  · right
+    obtain ⟨k, hk, hke⟩ := List.getElem_of_mem hin
+    have hk' : k < s.parents.length := by rw [retag_parents_length] at hk; exact hk
+    rw [retag_getElem s k hk'] at hke
+    have hoff : chosen[i].off = false := by rw [← hke]
+    have hpidx : chosen[i].pidx = k := by rw [← hke]
+    obtain ⟨e1, e2, e3, e4, e5⟩ := hp hoff
+    rw [hpidx] at e1 e2 e3 e4 e5
+    refine ⟨k, hk', hke.symm, e3, e4, e5, _, _, e2, e1, ?_⟩
+    exact mo_adjust_spec (retag s).prm chosen nc (retag s).psucc (retag s).sigmas k
+      (by show k < s.psucc.length; omega) (by show k < s.sigmas.length; omega)
+
+/-- **Whole histories, any initial tags**: the state after one or more generate/update rounds does not depend on the tags
+the initial parents carried. -/
+theorem mo_run_tag_independent (s : State α) (tags : List (Bool × Nat)) (nobj : Nat)
+    (sortND : List (MInd α) → List (List (MInd α))) (indicator : List (MInd α) → List α → Nat)
+    (pop : List (MInd α)) (rest : List (List (MInd α))) :
+    run (setTags s tags) nobj sortND indicator (pop :: rest) = run s nobj sortND indicator (pop :: rest) := by
+  simp only [run, retag_setTags]
+
+/-- `__init__` satisfies the length hypotheses of `mo_alignment_any_initial_tags`, for any tags. -/
+example (population : List (MInd α)) (sigma : α) (dim : Nat) (prm : Params α) :
+    (init population sigma dim prm).psucc.length = (init population sigma dim prm).parents.length ∧
+    (init population sigma dim prm).sigmas.length = (init population sigma dim prm).parents.length := by
+  simp [init]
+
+/-- The hypotheses of `mo_alignment_any_initial_tags` are satisfiable: one parent carrying the stale
+tag `("o", 5)` of an earlier strategy, an identity sort, one tagged offspring, `mu = 2`. -/
+example :
+    (MO.round (setTags (⟨2, [⟨0, [0, 0], [1, 1], false, 0⟩], [1], [[[1, 0], [0, 1]]], [[[1, 0], [0, 1]]],
+        [[0, 0]], [1 / 2], ⟨2, 1, 2, 1 / 5, 1 / 10, 1 / 2, 1 / 5, 11 / 25⟩⟩ : State ℝ) [(true, 5)]) 2
+      (fun l => [l]) (fun _ _ => 0) [⟨1, [1, 0], [2, 1], true, 0⟩]).isSome = true ∧
+    (∀ l : List (MInd ℝ), ∀ f ∈ (fun l => [l]) l, ∀ x ∈ f, x ∈ l) ∧
+    (∀ o ∈ ([⟨1, [1, 0], [2, 1], true, 0⟩] : List (MInd ℝ)), o.off = true) := by
+  refine ⟨?_, ?_, ?_⟩
+  · simp [MO.round, update, select, selectFronts, retag, setTags]
+  · intro l f hf x hx; simp at hf; subst hf; exact hx
+  · intro o ho; simp at ho; subst ho; rfl
+
+end MOTags
+
 /-! ## 3. Success rate in `[0,1]`, step size positive (over ℝ) -/
 section Rates
 variable {φ : Type}
